@@ -23,13 +23,17 @@ def gen_axis_cases(rng, n, with_minmax=True, directions=(True, False, 'root')):
     x small value sets (fits / does not fit / negative margins) exhaustively, then random rationals."""
     cases = []
     base = dict(pl=1, pr=2, bl=3, br=4, px=13, cbx=50, cbw=200, mn=20, mx=90, minw=0, maxw='inf')
+    seen = set()
     for pat in itertools.product([False, True], repeat=5):
         for vals in itertools.product([0, 30], [0, 45], [60, 250], [-7, 20], [0, 11]):
             for ltr in directions:
                 c = dict(base, ltr=ltr)
                 for k, auto, v in zip(('l', 'r', 'w', 'ml', 'mr'), pat, vals):
                     c[k] = 'auto' if auto else v
-                cases.append(c)
+                sig = tuple(sorted(c.items(), key=str))
+                if sig not in seen:          # the value of an auto field does not exist: 3^5 = 243 per direction
+                    seen.add(sig)
+                    cases.append(c)
     if with_minmax:
         for c in list(cases):
             if rng.random() < 0.35:
@@ -103,28 +107,60 @@ def fits_key(c):
     return tot <= Fraction(c['cbw'])
 
 
-def direct_stream(run, name, fn, cases, to_coq, judge, ctype, key):
-    outs = common.run_impl('impl_c11', fn, cases)
-    coq_cases, kept = [], []
-    for c, (st, o) in zip(cases, outs):
-        if st != 'ok':
-            run.fail('%s raised %s' % (fn, o), {'stream': name, 'case': c, 'outcome': o}, signature='%s-raise' % fn)
-            continue
-        coq_cases.append(to_coq(c, o)); kept.append((c, o))
-    try:
-        masks = common.eval_cases('c11' + fn, PRE_ABS if fn.startswith('abs') else PRE_FLOAT, ctype, coq_cases, judge)
-    except RuntimeError as exc:
-        run.oblige('corr:%s' % name, False, str(exc))
-        return
-    mism = [(c, o) for (c, o), m in zip(kept, masks) if m & 1]
-    run.oblige('corr:%s(model vs CPython, exact rationals)' % name, not mism, 'first disagreements: %s' % mism[:3])
-    for (c, o), m in zip(kept, masks):
-        if m & 2:
-            run.fail('%s: implementation output violates the placement spec' % name,
-                     {'stream': name, 'case': c, 'impl_output': o}, signature='%s-spec' % fn)
-            break
-    run.count(name, len(kept), [key(c) for c, _ in kept], samples=[{'case': kept[0][0], 'impl': kept[0][1]},
-                                                                 {'case': kept[-1][0], 'impl': kept[-1][1]}])
+class Streams:
+    """Direct-call streams are collected first, then run together: one worker pool for all implementation calls,
+    the Coq evaluations of the different streams side by side."""
+    def __init__(self):
+        self.items = []
+
+    def add(self, name, fn, cases, to_coq, judge, ctype, key, per_file=300, post=None):
+        self.items.append(dict(name=name, fn=fn, cases=cases, to_coq=to_coq, judge=judge, ctype=ctype, key=key,
+                               per_file=per_file, post=post))
+
+    def run(self, run):
+        from multiprocessing.pool import ThreadPool
+        flat_cases = [dict(fn=it['fn'], case=c) for it in self.items for c in it['cases']]
+        outs = common.run_impl('impl_c11', 'dispatch', flat_cases, chunksize=32)
+        pos = 0
+        for it in self.items:
+            it['outs'] = outs[pos:pos + len(it['cases'])]
+            pos += len(it['cases'])
+
+        def evaluate(it):
+            name, fn = it['name'], it['fn']
+            coq_cases, kept, fails = [], [], []
+            for c, (st, o) in zip(it['cases'], it['outs']):
+                if st != 'ok':
+                    fails.append((c, o))
+                    continue
+                coq_cases.append(it['to_coq'](c, o)); kept.append((c, o))
+            try:
+                masks = common.eval_cases('c11' + fn, PRE_ABS if fn.startswith('abs') else PRE_FLOAT, it['ctype'],
+                                          coq_cases, it['judge'], per_file=it['per_file'])
+                return kept, fails, masks, None
+            except RuntimeError as exc:
+                return kept, fails, None, str(exc)
+        with ThreadPool(len(self.items)) as tp:
+            results = tp.map(evaluate, self.items)
+        for it, (kept, fails, masks, err) in zip(self.items, results):
+            name, fn = it['name'], it['fn']
+            for c, o in fails[:2]:
+                run.fail('%s raised %s' % (fn, o), {'stream': name, 'fn': fn, 'case': c, 'outcome': o}, signature='%s-raise' % fn)
+            if err is not None:
+                run.oblige('corr:%s' % name, False, err)
+                continue
+            mism = [(c, o) for (c, o), m in zip(kept, masks) if m & 1]
+            run.oblige('corr:%s(model vs CPython, exact rationals)' % name, not mism, 'first disagreements: %s' % mism[:3])
+            for (c, o), m in zip(kept, masks):
+                if m & 2:
+                    run.fail('%s: implementation output violates the placement spec' % name,
+                             {'stream': name, 'fn': fn, 'case': c, 'impl_output': o}, signature='%s-spec' % fn)
+                    break
+            if it['post']:
+                it['post'](run, kept)
+            if kept:
+                run.count(name, len(kept), [it['key'](c) for c, _ in kept],
+                          samples=[{'case': kept[0][0], 'impl': kept[0][1]}, {'case': kept[-1][0], 'impl': kept[-1][1]}])
 
 
 def gen_absr(rng, n):
@@ -141,29 +177,198 @@ def gen_absr(rng, n):
     return cases
 
 
-def check_abs_direct(run, rng, thorough):
-    n = 12000 if thorough else 4500
+def check_abs_direct(run, rng, thorough, S):
+    n = 12000 if thorough else 1600
     cases = gen_axis_cases(rng, n)
-    direct_stream(run, 'absolute_width-direct', 'absw', cases, coq_absw_case, 'absw_judge', 'absw_case',
+    S.add('absolute_width-direct', 'absw', cases, coq_absw_case, 'absw_judge', 'absw_case',
                   lambda c: (pattern_key(c), c['ltr'], fits_key(c), c['minw'] != '0' and c['minw'] != 0, c['maxw'] != 'inf'))
     run.stream_info('absolute_width-direct',
-                    rule='32 auto patterns of (left,right,width,margin-left,margin-right) x 32 value tuples x {ltr,rtl,root} '
-                         'exhaustively, 35% repeated with min/max-width, + random rationals; decorated function '
+                    rule='32 auto patterns of (left,right,width,margin-left,margin-right) x 2 values per specified term '
+                         '(243 per direction) x {ltr,rtl,root} exhaustively, 35% repeated with min/max-width, + random rationals; decorated function '
                          '(handle_min_max_width re-entry); distinct = (pattern, direction, fits?, min?, max?)')
     cases = gen_axis_cases(rng, n // 2, with_minmax=False, directions=(True,))
-    contents = [Fraction(rng.randint(0, 300), rng.choice([1, 2, 3])) for _ in cases]
-    it = iter(contents)
-    direct_stream(run, 'absolute_height-direct', 'absh', cases, lambda c, o: coq_absh_case(c, o, next(it)),
+    for c in cases:
+        c['content'] = str(Fraction(rng.randint(0, 300), rng.choice([1, 2, 3])))
+    S.add('absolute_height-direct', 'absh', cases, lambda c, o: coq_absh_case(c, o, c['content']),
                   'absh_judge', 'absh_case', lambda c: (pattern_key(c), fits_key(c)))
-    run.stream_info('absolute_height-direct', rule='32 auto patterns x 32 value tuples exhaustively + random rationals; '
+    run.stream_info('absolute_height-direct', rule='32 auto patterns x 2 values per specified term (243) exhaustively + random rationals; '
                     'content height (used when height stays auto) random')
     cases = gen_absr(rng, n // 2)
-    direct_stream(run, 'absolute_replaced-direct', 'absr', cases, coq_absr_case, 'absr_judge', 'absr_case',
+    S.add('absolute_replaced-direct', 'absr', cases, coq_absr_case, 'absr_judge', 'absr_case',
                   lambda c: (pattern_key(c['h']), pattern_key(c['v']), c['ltr'], fits_key(c['h'])))
     run.stream_info('absolute_replaced-direct', rule='horizontal x vertical auto patterns (width/height given), ltr/rtl/root')
 
 
-PRE_FLOAT = ''
+PRE_FLOAT = ('From Coq Require Import QArith List Bool.\nRequire Import WV.model.C11Float.\n'
+             'Import ListNotations.\nOpen Scope Q_scope.\n')
+KINDS = {'left': 'FloatLeft', 'right': 'FloatRight', 'line': 'LineBox', 'table': 'TableWrapper',
+         'bfc': 'OtherBFC', 'replaced': 'OtherBFC'}
+CLEARS = {'none': 'ClearNone', 'left': 'ClearLeft', 'right': 'ClearRight', 'both': 'ClearBoth'}
+
+
+# ------------------------------------------------------------------------------ stream 2: float.py direct
+
+def shape_lit(s):
+    return '(mk_shape %s %s %s %s %s)' % (blit(s[0] == 'left'), qlit(s[1]), qlit(s[2]), qlit(s[3]), qlit(s[4]))
+
+
+def fbox_lit(b):
+    return '(mk_fbox %s %s %s %s %s %s %s %s)' % (KINDS[b['kind']], qlit(b['py']), qlit(b['ml']), qlit(b['mr']),
+                                                 qlit(b['mt']), qlit(b['mb']), qlit(b['bw']), qlit(b['bh']))
+
+
+def rq(rng, lo, hi, dens=(1, 1, 1, 2, 3)):
+    return str(Fraction(rng.randint(lo, hi), rng.choice(dens)))
+
+
+def gen_shapes(rng, cbx, cbw, nmax=8):
+    """already placed floats: stacked against the sides of the containing block (or of a wider ancestor), tops
+    non-decreasing, mostly positive sizes; a few degenerate ones (zero / negative height)."""
+    cbx, cbw = Fraction(cbx), Fraction(cbw)
+    shapes, y = [], Fraction(rng.choice([0, 0, 10, 35]))
+    for _ in range(rng.choice([0, 1, 1, 2, 3, 4, 6, nmax])):
+        side = rng.choice(['left', 'right'])
+        w = Fraction(rng.choice([10, 20, 30, 50, 80, 120])) + (Fraction(rq(rng, 0, 9)) if rng.random() < 0.3 else 0)
+        h = Fraction(rng.choice([5, 10, 10, 20, 40])) + (Fraction(rq(rng, 0, 9)) if rng.random() < 0.3 else 0)
+        if rng.random() < 0.04:
+            h = Fraction(rng.choice([0, -5]))
+        off = Fraction(rng.choice([0, 0, 0, 10, 20, 60, -15]))
+        x = cbx + off if side == 'left' else cbx + cbw - w - off
+        shapes.append((side, str(x), str(y), str(w), str(h)))
+        y += Fraction(rng.choice([0, 0, 5, 10, 10, 20, 25]))
+    return shapes
+
+
+def gen_fbox(rng, kinds, shapes, cbw):
+    ys = [Fraction(s[2]) for s in shapes] + [Fraction(s[2]) + Fraction(s[4]) for s in shapes] + [Fraction(0)]
+    py = rng.choice(ys) + Fraction(rng.choice([0, 0, 0, -3, 4, 12, -20]))
+
+    def m(p=0.25):
+        return rq(rng, -6, 15) if rng.random() < p else '0'
+    bw = rng.choice([10, 20, 40, 50, 70, 100, 150, str(Fraction(cbw)), rq(rng, 1, 200)])
+    bh = rng.choice([0, 10, 10, 10, 20, 30, 60, rq(rng, 1, 50)]) if rng.random() < 0.97 else 0
+    return dict(kind=rng.choice(kinds), py=str(py), ml=m(), mr=m(), mt=m(), mb=m(), bw=str(bw), bh=str(bh))
+
+
+def regular_key(shapes, b):
+    return (all(Fraction(s[4]) > 0 for s in shapes), Fraction(b['bh']) != 0,
+            Fraction(b['bh']) + Fraction(b['mt']) + Fraction(b['mb']) > 0)
+
+
+def check_float_direct(run, rng, thorough, S):
+    n = 4000 if thorough else 700
+    # find_float_position on a given list of shapes
+    cases = []
+    for _ in range(n):
+        cbx, cbw = rng.choice([(0, 200), (30, 150), (0, 300), ('7/2', '401/3')])
+        shapes = gen_shapes(rng, cbx, cbw)
+        cases.append(dict(shapes=shapes, cbx=cbx, cbw=cbw, rtl=rng.random() < 0.2,
+                          box=gen_fbox(rng, ['left', 'right'], shapes, cbw)))
+    S.add('find_float_position-direct', 'ffp', cases,
+                  lambda c, o: '([%s], (%s, %s), %s, %s, (%s, %s))' % (
+                      '; '.join(shape_lit(s) for s in c['shapes']), qlit(c['cbx']), qlit(c['cbw']), blit(c['rtl']),
+                      fbox_lit(c['box']), qlit(o[0]), qlit(o[1])),
+                  'ffp_judge', 'ffp_case',
+                  lambda c: (len(c['shapes']), c['box']['kind'], regular_key(c['shapes'], c['box']), c['box']['bw']))
+    run.stream_info('find_float_position-direct', rule='0..8 stacked shapes (4% degenerate heights) x left/right float '
+                    'with random margins/size (3% zero height), py at a shape edge +- offset; stub context, real Box methods')
+    # sequences
+    cases = []
+    for _ in range(n // 2):
+        reqs, py = [], Fraction(0)
+        cbs = rng.choice([[(0, 200)], [(0, 300), (20, 200)], [(10, 120), (10, 120), (0, 400)]])
+        for _ in range(rng.randint(1, 12)):
+            cbx, cbw = rng.choice(cbs)
+            py += Fraction(rng.choice([0, 0, 0, 5, 10, 30]))
+            b = gen_fbox(rng, ['left', 'right'], [], cbw)
+            b['py'] = str(py)
+            if rng.random() < 0.9:
+                b['bh'] = str(max(Fraction(b['bh']), 5))
+                b['mt'] = str(abs(Fraction(b['mt']))); b['mb'] = str(abs(Fraction(b['mb'])))
+            reqs.append(dict(cbx=cbx, cbw=cbw, box=b))
+        cases.append(dict(reqs=reqs))
+    S.add('float-sequence-direct', 'fseq', cases,
+                  lambda c, o: '([%s], [%s])' % (
+                      '; '.join('(%s, %s, %s)' % (qlit(r['cbx']), qlit(r['cbw']), fbox_lit(r['box'])) for r in c['reqs']),
+                      '; '.join('(%s, %s)' % (qlit(x), qlit(y)) for x, y in o)),
+                  'fseq_judge', 'fseq_case', per_file=40, key=lambda c: (len(c['reqs']), tuple(r['box']['kind'] for r in c['reqs'])))
+    run.stream_info('float-sequence-direct', rule='1..12 left/right floats placed one after the other '
+                    '(find_float_position + excluded_shapes.append) in 1..3 containing blocks; every float judged by '
+                    'the nine rules against all earlier ones')
+    # avoid_collisions(outer=False)
+    cases = []
+    for _ in range(n):
+        cbx, cbw = rng.choice([(0, 200), (30, 150), (0, 300)])
+        shapes = gen_shapes(rng, cbx, cbw)
+        b = gen_fbox(rng, ['line', 'table', 'bfc', 'replaced'], shapes, cbw)
+        if b['kind'] == 'line':
+            b['ml'] = b['mr'] = b['mt'] = b['mb'] = '0'
+        cases.append(dict(shapes=shapes, cbx=cbx, cbw=cbw, rtl=rng.random() < 0.3, box=b))
+    S.add('avoid_collisions-direct', 'avc', cases,
+                  lambda c, o: '([%s], (%s, %s), %s, %s, (%s, %s, %s))' % (
+                      '; '.join(shape_lit(s) for s in c['shapes']), qlit(c['cbx']), qlit(c['cbw']), blit(c['rtl']),
+                      fbox_lit(c['box']), qlit(o[0]), qlit(o[1]), qlit(o[2])),
+                  'avc_judge', 'avc_case',
+                  lambda c: (len(c['shapes']), c['box']['kind'], c['rtl'], c['box']['bw']))
+    run.stream_info('avoid_collisions-direct', rule='outer=False callers: line box / table wrapper / replaced block / '
+                    'formatting-context root, ltr and rtl, among 0..8 shapes')
+    # get_clearance
+    cases = []
+    for _ in range(n):
+        shapes = gen_shapes(rng, 0, 200)
+        ys = [Fraction(s[2]) + Fraction(s[4]) for s in shapes] + [Fraction(0)]
+        cases.append(dict(shapes=shapes, clear=rng.choice(['none', 'left', 'right', 'both', 'both']),
+                          py=str(rng.choice(ys) + rng.choice([0, 0, -5, 5, -30])),
+                          cm=rng.choice([None, None, '0', '7', '-4', '5/2'])))
+    S.add('get_clearance-direct', 'clr', cases,
+                  lambda c, o: '([%s], %s, %s, %s)' % (
+                      '; '.join(shape_lit(s) for s in c['shapes']), CLEARS[c['clear']],
+                      qlit(Fraction(c['py']) + Fraction(c['cm'] or 0)), oqlit('auto' if o is None else o)),
+                  'clr_judge', 'clr_case',
+                  lambda c: (len(c['shapes']), c['clear'], c['py'], c['cm']))
+    run.stream_info('get_clearance-direct', rule='0..8 shapes x clear none/left/right/both, hypothetical position at a '
+                    'bottom edge +- offset, with and without collapsed margin')
+    # relative_positioning
+    def tree(depth):
+        def off():
+            return 'auto' if rng.random() < 0.5 else rq(rng, -20, 30)
+        inline = depth > 0 and rng.random() < 0.6
+        kids = [tree(depth + 1) for _ in range(rng.choice([0, 0, 1, 2, 3]))] if depth < 3 else []
+        return dict(rel=rng.random() < 0.6, inline=inline, ltr=rng.random() < 0.6, offs=[off(), off(), off(), off()],
+                    x=rq(rng, 0, 200), y=rq(rng, 0, 200), kids=kids)
+    cases = []
+    for i in range(n // 2):
+        t = tree(0)
+        if i % 3 == 0:
+            t['inline'] = True
+        cases.append(dict(tree=t, cbw=100, cbh=100))
+
+    def tree_lit(t):
+        return '(RBox %s %s %s (%s, %s, %s, %s) %s %s [%s])' % (
+            blit(t['rel']), blit(t['inline']), blit(t['ltr']), oqlit(t['offs'][0]), oqlit(t['offs'][1]),
+            oqlit(t['offs'][2]), oqlit(t['offs'][3]), qlit(t['x']), qlit(t['y']), '; '.join(tree_lit(k) for k in t['kids']))
+    def rel_post(run, kept):
+        for c, o in kept:
+            if not o['ret'] or o['sibling'] != [[str(Fraction(x)), str(Fraction(y))] for x, y in flat(c['tree'])]:
+                run.fail('relative_positioning returned a value or touched another tree',
+                         {'stream': 'relative_positioning-direct', 'fn': 'rel', 'case': c, 'impl_output': o})
+                break
+    S.add('relative_positioning-direct', 'rel', cases,
+                  lambda c, o: '(%s, [%s])' % (tree_lit(c['tree']), '; '.join('(%s, %s)' % (qlit(x), qlit(y)) for x, y in o['pos'])),
+                  'rel_judge', 'rel_case',
+                  lambda c: (c['tree']['rel'], c['tree']['inline'], c['tree']['ltr'], tuple(x == 'auto' for x in c['tree']['offs'])),
+                  post=rel_post)
+    run.stream_info('relative_positioning-direct', rule='random trees (depth<=4) of block / inline boxes, each relative or '
+                    'static with left/right/top/bottom auto or a length, ltr/rtl; real Box.translate')
+
+
+def flat(t):
+    out = [(t['x'], t['y'])]
+    for k in t['kids']:
+        out += flat(k)
+    return out
+
+
 
 
 def check(run):
@@ -174,7 +379,10 @@ def check(run):
                     'hand-written Gallina models (model/C11Abs.v, model/C11Float.v): tied to /repo by exact-rational '
                     'direct-call correspondence on every run',
                     'harness stubs (SimpleNamespace/Fraction, shrink_to_fit oracle) and render monitors (Python)']
-    check_abs_direct(run, rng, thorough)
+    S = Streams()
+    check_abs_direct(run, rng, thorough, S)
+    check_float_direct(run, rng, thorough, S)
+    S.run(run)
 
 
 def replay(data):
